@@ -29,6 +29,7 @@ use monitors::report::{guarded, run_cases, Config, Json, Report, Sub};
 use monitors::tag::{ledger_events_from, ledger_len, ledger_live, ledger_mark, ledger_reset, ledger_slot, ledger_take_errors, Ev, Own, RAW_MEMORY};
 use props::*;
 use std::borrow::{Borrow, BorrowMut};
+use std::cell::RefCell;
 use std::collections::HashSet;
 use std::fmt::Debug;
 use std::hash::{Hash, Hasher};
@@ -192,8 +193,185 @@ fn check_pull(kind: &str, op: Op, got: Option<&Own>, want: Option<usize>) -> Res
     Ok(())
 }
 
+/// How a history ends.  `mode` 0 drops the iterator; the other modes hand it by value to one of the
+/// consuming adaptors, whose callback receives the elements: "dropping it at any moment" includes the
+/// moment a consumer's callback unwinds while it owns the element it was just given.
+#[derive(Clone, Copy, Debug, PartialEq)]
+struct Fin {
+    mode: u8,
+    /// the callback panics (modes with a callback) / breaks (try_fold) / stops (take) on the k-th element it receives
+    at: Option<u8>,
+}
+const FIN_DROP: Fin = Fin { mode: 0, at: None };
+const FIN_NAMES: [&str; 14] = ["drop", "fold", "fold(keeping the elements)", "for_each", "rfold", "rev().for_each", "count", "last", "by_ref().try_fold(break)", "for loop", "collect::<Vec>", "map().sum", "max_by_key", "by_ref().rev().take(k).for_each"];
+const FIN_API: [&str; 14] = ["drop", "fold", "fold", "for_each", "rfold", "rev", "count", "last", "try_fold", "next", "collect", "sum", "max_by_key", "rev"];
+/// does mode m run a harness callback that can panic?
+fn fin_has_callback(m: u8) -> bool {
+    matches!(m, 1 | 2 | 3 | 4 | 5 | 9 | 11)
+}
+
+/// consume the iterator according to `fin`; updates the shadow's expectations.  The caller runs the
+/// ledger checks that follow every end of history.
+fn finish<I>(kind: &'static str, mut it: I, sh: &mut Shadow, fin: Fin) -> Result<(), Bad>
+where
+    I: Iterator<Item = Own> + DoubleEndedIterator + ExactSizeIterator + Cursors,
+{
+    let (f, b) = (sh.f, sh.b);
+    let rem = b - f;
+    let mode = fin.mode;
+    let api_of = || format!("{}::IntoIter::{}", kind.to_lowercase(), FIN_API[mode as usize]);
+    let got: RefCell<Vec<u32>> = RefCell::new(Vec::new());
+    let kept: RefCell<Vec<Own>> = RefCell::new(Vec::new());
+    let at = fin.at.map(|k| k as usize);
+    let panics = fin_has_callback(mode) && at.map(|k| k < rem).unwrap_or(false);
+    // the consumer's callback: notes what it was given, then gives up (unwinding with the element
+    // in its hands), keeps the element, or drops it
+    let cb = |o: Own, keep: bool| {
+        let ix = got.borrow().len();
+        got.borrow_mut().push(o.id());
+        if fin_has_callback(mode) && Some(ix) == at {
+            panic!("consumer gives up on the element #{} it receives", ix);
+        }
+        if keep {
+            kept.borrow_mut().push(o)
+        } else {
+            drop(o)
+        }
+    };
+    let backwards = matches!(mode, 4 | 5 | 13);
+    let mut returned: Option<Own> = None;
+    let mut expect_given: Vec<u32> = if backwards { (f as u32..b as u32).rev().collect() } else { (f as u32..b as u32).collect() };
+    let mut bad_return: Option<String> = None;
+    let r = guarded(|| match mode {
+        1 => it.fold((), |(), o| cb(o, false)),
+        2 => it.fold((), |(), o| cb(o, true)),
+        3 => it.for_each(|o| cb(o, false)),
+        4 => it.rfold((), |(), o| cb(o, false)),
+        5 => it.rev().for_each(|o| cb(o, true)),
+        6 => {
+            let c = it.count();
+            if c != rem {
+                bad_return = Some(format!("count() returned {} but {} elements remained", c, rem));
+            }
+        }
+        7 => {
+            returned = it.last();
+            let want = if rem > 0 { Some(b as u32 - 1) } else { None };
+            if returned.as_ref().map(|o| o.id()) != want {
+                bad_return = Some(format!("last() returned {:?} but the model says {:?}", returned.as_ref().map(|o| o.id()), want));
+            }
+        }
+        8 => {
+            let stop = at.unwrap_or(usize::MAX);
+            let _ = it.by_ref().try_fold((), |(), o| {
+                let ix = got.borrow().len();
+                cb(o, false);
+                if ix == stop { Err(()) } else { Ok(()) }
+            });
+            let taken = rem.min(stop.saturating_add(1));
+            let (cs, ce) = it.cursors();
+            if (cs, ce) != (f + taken, b) || it.len() != rem - taken {
+                bad_return = Some(format!("after try_fold broke on the element #{} the cursors are ({},{}) and len() = {}, the model says ({},{}) and {}", stop, cs, ce, it.len(), f + taken, b, rem - taken));
+            }
+            drop(it);
+        }
+        9 => {
+            for o in it {
+                cb(o, false);
+            }
+        }
+        10 => {
+            let v: Vec<Own> = it.collect();
+            for o in v {
+                cb(o, true);
+            }
+        }
+        11 => {
+            let total: u64 = it.map(|o| { let i = o.id() as u64; cb(o, false); i }).sum();
+            let want: u64 = if panics { 0 } else { (f as u64..b as u64).sum() };
+            if total != want {
+                bad_return = Some(format!("map(id).sum() = {} but the remaining ids add up to {}", total, want));
+            }
+        }
+        12 => {
+            returned = it.max_by_key(|o| o.id());
+            let want = if rem > 0 { Some(b as u32 - 1) } else { None };
+            if returned.as_ref().map(|o| o.id()) != want {
+                bad_return = Some(format!("max_by_key(id) returned {:?} but the model says {:?}", returned.as_ref().map(|o| o.id()), want));
+            }
+        }
+        13 => {
+            let k = at.unwrap_or(0);
+            it.by_ref().rev().take(k).for_each(|o| cb(o, true));
+            drop(it);
+        }
+        _ => drop(it),
+    });
+    // what the callback must have been given
+    match mode {
+        6 | 7 | 12 => expect_given.clear(),
+        8 => expect_given.truncate(rem.min(at.unwrap_or(usize::MAX).saturating_add(1))),
+        13 => expect_given.truncate(rem.min(at.unwrap_or(0))),
+        _ => {
+            if panics {
+                expect_given.truncate(at.unwrap() + 1);
+            }
+        }
+    }
+    let keep_back = |sh: &mut Shadow, kept: Vec<Own>, returned: Option<Own>| {
+        for o in kept.into_iter().chain(returned) {
+            sh.held.push(o);
+        }
+    };
+    // the model after the consumer: everything in [f,b) is gone from the iterator; dropped unless kept
+    for id in f..b {
+        sh.expect_live[id] = false;
+    }
+    let kept = kept.into_inner();
+    for o in kept.iter().chain(returned.iter()) {
+        if (o.id() as usize) < sh.n {
+            sh.expect_live[o.id() as usize] = true;
+        }
+    }
+    sh.f = b;
+    let got = got.into_inner();
+    let ctx = || format!("ending the history in state (start {}, end {}) with {}{}", f, b, FIN_NAMES[mode as usize], match (fin_has_callback(mode), at) { (true, Some(k)) => format!(", the callback panicking on the element #{} it receives", k), (false, Some(k)) if mode == 8 => format!(", breaking on the element #{}", k), (false, Some(k)) if mode == 13 => format!(" with k = {}", k), _ => String::new() });
+    match (&r, panics) {
+        (Err(p), false) => {
+            keep_back(sh, kept, returned);
+            return Err(Bad { api: api_of(), class: "panic", what: "consumer", detail: format!("{}: panicked: {}", ctx(), p) });
+        }
+        (Ok(()), true) => {
+            keep_back(sh, kept, returned);
+            return Err(Bad { api: api_of(), class: "wrong_value", what: "callback_panic_swallowed", detail: format!("{}: the callback panicked but the consumer returned normally; elements given to the callback: {:?}", ctx(), got) });
+        }
+        _ => {}
+    }
+    if got != expect_given {
+        keep_back(sh, kept, returned);
+        return Err(Bad { api: api_of(), class: "wrong_value", what: "consumer_yield_order", detail: format!("{}: the callback received element ids {:?}, the model (remaining elements in order, each once) says {:?}", ctx(), got, expect_given) });
+    }
+    if let Some(msg) = bad_return {
+        keep_back(sh, kept, returned);
+        return Err(Bad { api: api_of(), class: "wrong_value", what: "consumer_result", detail: format!("{}: {}", ctx(), msg) });
+    }
+    keep_back(sh, kept, returned);
+    ledger_check(sh, sh.n, &ctx).map_err(|mut e| {
+        e.api = api_of();
+        e
+    })
+}
+
 /// Run one history on vector kind `V`.  Returns Err(first violation).
 fn run_history<V>(kind: &'static str, kind_ix: usize, ops: &[Op]) -> Result<(Vec<u32>, Vec<u32>), Bad>
+where
+    V: VecX<Own> + IntoIterator<Item = Own>,
+    V::IntoIter: DoubleEndedIterator + ExactSizeIterator + Debug + Hash + PartialEq + Cursors,
+{
+    run_history_fin::<V>(kind, kind_ix, ops, FIN_DROP)
+}
+
+fn run_history_fin<V>(kind: &'static str, kind_ix: usize, ops: &[Op], fin: Fin) -> Result<(Vec<u32>, Vec<u32>), Bad>
 where
     V: VecX<Own> + IntoIterator<Item = Own>,
     V::IntoIter: DoubleEndedIterator + ExactSizeIterator + Debug + Hash + PartialEq + Cursors,
@@ -223,7 +401,37 @@ where
         ledger_take_errors();
         return r.map(|_| (Vec::new(), Vec::new()));
     }
-    // end of the history: drop the iterator at this moment
+    // end of the history: hand the iterator to a consumer ...
+    if fin.mode != 0 {
+        let mut res = finish(kind, it, &mut sh, fin);
+        if res.is_err() {
+            for o in sh.held.drain(..) {
+                std::mem::forget(o);
+            }
+            ledger_take_errors();
+            return res.map(|_| (Vec::new(), Vec::new()));
+        }
+        for o in sh.held.drain(..) {
+            let id = o.id() as usize;
+            drop(o);
+            if id < n {
+                sh.expect_live[id] = false;
+            }
+        }
+        res = ledger_check(&sh, n, &|| "at the end of the history".to_string()).map_err(|mut e| {
+            e.api = format!("{}::IntoIter", kind.to_lowercase());
+            e
+        });
+        if res.is_ok() {
+            let live = ledger_live();
+            if !live.is_empty() {
+                res = Err(Bad { api: format!("{}::IntoIter::{}", kind.to_lowercase(), FIN_API[fin.mode as usize]), class: "ownership", what: "leak", detail: format!("elements still live at the end of the history (ended with {}): ids {:?}", FIN_NAMES[fin.mode as usize], live) });
+            }
+        }
+        ledger_take_errors();
+        return res.map(|_| (std::mem::take(&mut sh.seen_states), std::mem::take(&mut sh.seen_trans)));
+    }
+    // ... or drop the iterator at this moment
     let (f, b) = (sh.f, sh.b);
     let mark = ledger_mark();
     let dropped = guarded(move || drop(it));
@@ -801,6 +1009,117 @@ fn run_random(s: &mut Sub, cfg: &Config, i: u64, small_only: bool) {
         let r = r.map(|(st, tr)| flush_states(st, tr));
         let pulls = ops.iter().filter(|o| matches!(o, Op::Next | Op::Back | Op::Nth(_) | Op::NthBack(_))).count();
         record(s, cfg, i, kind, &ops, r, h.get(), pulls >= 2);
+    }
+}
+
+
+// ---------------------------------------------------------------------------------------------
+// histories that end in a consuming adaptor
+
+struct ConsumeJob {
+    kind: usize,
+    fp: usize,
+    bp: usize,
+    fin: Fin,
+    drop_at_once: bool,
+}
+
+fn consume_jobs(cfg: &Config) -> Vec<ConsumeJob> {
+    let sanit = cfg.tool == "miri";
+    let thorough = cfg.thorough();
+    let mut jobs = Vec::new();
+    for (kix, &(_, n)) in KINDS.iter().enumerate() {
+        if sanit && !thorough && n > 4 {
+            continue;
+        }
+        // (front pulls, back pulls) before the consumer takes over
+        let mut states: Vec<(usize, usize)> = Vec::new();
+        if n <= 4 && !(sanit && !thorough && n == 4) {
+            for fp in 0..=n {
+                for bp in 0..=(n - fp) {
+                    states.push((fp, bp));
+                }
+            }
+        } else {
+            for &(fp, bp) in &[(0, 0), (1, 0), (0, 1), (2, 1), (n / 2, n / 4), (n - 1, 0), (0, n - 1), (n / 2, n - n / 2), (n, 0)] {
+                if fp + bp <= n && !states.contains(&(fp, bp)) {
+                    states.push((fp, bp));
+                }
+            }
+        }
+        for (si, &(fp, bp)) in states.iter().enumerate() {
+            let rem = n - fp - bp;
+            for mode in 1..FIN_NAMES.len() as u8 {
+                let mut ats: Vec<Option<u8>> = vec![None];
+                if fin_has_callback(mode) || mode == 8 || mode == 13 {
+                    for k in [0usize, 1, rem / 2, rem.saturating_sub(1), rem] {
+                        let a = Some(k.min(255) as u8);
+                        if !ats.contains(&a) {
+                            ats.push(a);
+                        }
+                    }
+                }
+                if sanit && !thorough {
+                    // the interpreter: the callback modes with one early and one late panic
+                    ats.retain(|a| a.is_none() || *a == Some(0) || *a == Some(rem.saturating_sub(1).min(255) as u8));
+                }
+                for (ai, at) in ats.into_iter().enumerate() {
+                    jobs.push(ConsumeJob { kind: kix, fp, bp, fin: Fin { mode, at }, drop_at_once: (si + ai + mode as usize) % 2 == 0 });
+                }
+            }
+        }
+    }
+    jobs
+}
+
+fn run_consume_kind<V>(kind: &'static str, kix: usize, ops: &[Op], fin: Fin) -> Result<(Vec<u32>, Vec<u32>), Bad>
+where
+    V: VecX<Own> + IntoIterator<Item = Own>,
+    V::IntoIter: DoubleEndedIterator + ExactSizeIterator + Debug + Hash + PartialEq + Cursors,
+{
+    run_history_fin::<V>(kind, kix, ops, fin)
+}
+
+fn run_consume(s: &mut Sub, cfg: &Config, jobs: &[ConsumeJob], i: u64) {
+    let j = &jobs[i as usize];
+    let (kind, n) = KINDS[j.kind];
+    let mut ops = Vec::new();
+    for k in 0..(j.fp + j.bp) {
+        // interleave the two ends
+        let front = if k % 2 == 0 { k / 2 < j.fp } else { (k + 1) / 2 > j.bp };
+        ops.push(if front { Op::Next } else { Op::Back });
+        if j.drop_at_once {
+            ops.push(Op::DropHeld(0));
+        }
+    }
+    let fr = ops.iter().filter(|o| **o == Op::Next).count();
+    let bk = ops.iter().filter(|o| **o == Op::Back).count();
+    debug_assert!(fr == j.fp && bk == j.bp, "weaving {} front and {} back pulls gave {} and {}", j.fp, j.bp, fr, bk);
+    let r = by_kind!(j.kind, run_consume_kind(&ops, j.fin));
+    saw_ops(s, kind, &ops);
+    s.saw(&format!("{}::IntoIter::{}", kind.to_lowercase(), FIN_API[j.fin.mode as usize]));
+    s.saw(&format!("consumer:{}", FIN_NAMES[j.fin.mode as usize]));
+    let rem = n - j.fp - j.bp;
+    let unwinds = fin_has_callback(j.fin.mode) && j.fin.at.map(|k| (k as usize) < rem).unwrap_or(false);
+    if unwinds {
+        s.saw("consumer callback unwinds");
+    }
+    let mut h = H64::new();
+    h.s("consume").s(kind).u(j.fp as u64).u(j.bp as u64).u(j.fin.mode as u64).u(j.fin.at.map(|k| k as u64 + 1).unwrap_or(0)).u(j.drop_at_once as u64);
+    let r = r.map(|_| ());
+    match r {
+        Ok(()) => {
+            s.held(h.get(), rem >= 1);
+            if unwinds && rem >= 2 {
+                s.sample(|| format!("{} history [{}] then {} with the callback panicking on the element #{} it receives: every element given away once or dropped once, none twice, none leaked", kind, ops_text(&ops), FIN_NAMES[j.fin.mode as usize], j.fin.at.unwrap()));
+            }
+        }
+        Err(b) => {
+            let api = if b.api.is_empty() { format!("{}::IntoIter", kind.to_lowercase()) } else { b.api.clone() };
+            let detail = format!("{} history [{}]: {}", kind, ops_text(&ops), b.detail);
+            let v = violation(PROP, s, &api, "Own", b.class, b.what, detail, cfg.case_seed(), i);
+            s.violated(v);
+        }
     }
 }
 
@@ -1696,6 +2015,27 @@ fn main() {
         let rule = format!("tool={}: {} random histories (length <= 2N+6) over next / next_back / nth(k) / nth_back(k) / Debug / Hash / == self / == a second partially consumed iterator / harness drops a yielded element, random kind among the 13{}, ended by dropping the iterator; same per-step monitors as iter_histories; distinct by hash of (kind, ops); non-trivial = at least two pulls", cfg.tool, n, if sanit { " (dimension <= 8 under the sanitizer)" } else { "" });
         let proto = Sub::new("iter_random", &rule).with_floor(n / 3);
         let s = run_cases(&cfg, proto, n, |s, i| run_random(s, &cfg, i, sanit && !cfg.thorough()));
+        rep.push(s);
+    }
+
+    // --- histories ended by a consuming adaptor (incl. a callback that unwinds)
+    {
+        let jobs = consume_jobs(&cfg);
+        let rule = format!(
+            "tool={}: {} histories: a prefix of front/back pulls (every (front,back) state for dimensions 2..4, nine spread states for 8..64; the harness alternately keeps or drops what it received), then the iterator is handed BY VALUE to a consumer: fold, fold keeping the elements, for_each, rfold, rev().for_each, count, last, by_ref().try_fold breaking on the k-th element (then drop), a for loop, collect::<Vec>, map().sum, max_by_key, by_ref().rev().take(k) (then drop); for the consumers with a callback the callback also PANICS on the k-th element it receives (k in 0, 1, middle, last, none) while owning that element, and the unwinding drops the iterator at that moment. Checked: the callback receives exactly the remaining ids in order (reversed for the back-to-front consumers), return values (count, last, max, sum), cursors/len after the partial consumers, and at the end the ledger shows every element dropped exactly once (no double drop, no leak, no garbage); under Miri/memcheck a double drop is a real double free; non-trivial = at least one element remained; distinct by (kind, state, consumer, k, policy)",
+            cfg.tool,
+            jobs.len()
+        );
+        let floor = if sanit { 40 } else { jobs.len() as u64 / 2 };
+        let mut proto = Sub::new("iter_consume", &rule).with_floor(floor);
+        proto.exhaustive = true;
+        if !sanit {
+            for m in 1..FIN_NAMES.len() {
+                proto.required.push(format!("consumer:{}", FIN_NAMES[m]));
+            }
+            proto.required.push("consumer callback unwinds".into());
+        }
+        let s = run_cases(&cfg, proto, jobs.len() as u64, |s, i| run_consume(s, &cfg, &jobs, i));
         rep.push(s);
     }
 
